@@ -124,6 +124,14 @@ def source_lat(ctx):
     vlib.proof_phase_extra(ctx, 'Properties_lat_source')
 
 
+# build_dispatch_tables (grouping by mask, v-table entries): translators/grouping.py -> Gen/GenGrp.v -> Properties_grp_source
+SOURCE_GRP = ('C01', 'C04', 'C17')
+
+
+def source_grp(ctx):
+    vlib.proof_phase_extra(ctx, 'Properties_grp_source')
+
+
 def main(pid, assumptions, level='proof', explanation=None):
     ctx = vlib.Ctx(pid)
     if ctx.replay:
@@ -154,6 +162,8 @@ def main(pid, assumptions, level='proof', explanation=None):
         source_meth(ctx)
     if pid in SOURCE_LAT:
         source_lat(ctx)
+    if pid in SOURCE_GRP:
+        source_grp(ctx)
     res = coresuite.dispatch_suite(ctx.tier, ctx.seed)
     cov = coresuite.summarize(ctx, res, pid)
     if pid == 'C03':
